@@ -28,9 +28,9 @@ BV = [lambda a, b: [((a,), 1)],
       lambda a, b: []]
 
 
-def gen_node(rng, depth, labs, uni):
+def gen_node(rng, depth, labs, uni, force_gate=False):
     r = rng.random()
-    if depth == 0 or r < 0.35:
+    if not force_gate and (depth == 0 or r < 0.3):
         rr = rng.random()
         if rr < 0.6:
             return {"t": "lbl", "l": C.enc(rng.choice(labs))}
@@ -52,10 +52,7 @@ def gen(rng, i, tier):
     uni = rng.choice(['int', 'pool'])
     labs = G.labels(rng, uni, rng.randint(1, 5))
     d = rng.randint(1, 3 if tier == "quick" else 4)
-    n = gen_node(rng, d, labs, uni)
-    if n["t"] != "gate":
-        n = {"t": "gate", "g": rng.choice(GATES[:2]), "args": [n]}
-    return {"tree": n}
+    return {"tree": gen_node(rng, d, labs, uni, force_gate=True)}
 
 
 def pyeval(n, leaves):
